@@ -11,6 +11,7 @@ import DateutilVerif.Proofs.RenderGenC
 import DateutilVerif.Proofs.RenderGenD
 import DateutilVerif.Proofs.RenderGenE
 import DateutilVerif.Proofs.RenderCompactFrac
+import DateutilVerif.Proofs.RenderHmsFrac
 namespace C02
 open PM Py PT
 
@@ -243,6 +244,28 @@ theorem parse_render_compact_fraction (cls : Char → CClass) [AsciiOK cls] (yf 
       .ok { dt := (TimeFmt.frac comma k).expect t dflt, tz := if o.ignoretz then .naive else offDescr tznames off,
             tokens := none } :=
   parse_cfrac cls yf year century o tznames tzi ho dflt hdv t ht hd comma k hk1 hk6 off hoff
+
+/-- **family 6b**: the unit notation with a fraction on the seconds, `YYYY-MM-DD HHhMMmSS(.|,)f…s`, with 1, 2, 4 or 6 fraction
+    digits, followed by nothing or by any offset spelling after a space (the `s` must be separated from an offset): one lexer
+    token `SS.f…` (a comma after the two second digits is a decimal mark), which — its length being none of 6, 8, 12, 14 — reaches
+    `_find_hms_idx`, the `s` behind it `_assign_hms`, and that `_parsems`: the datetime cut to the digits shown.
+    (3 and 5 digits: the token is 6 / 8 characters long and is read as HHMMSS / YYYYMMDD — known finding
+    D-C02-hms-fraction-token-length; the full-strength statement `1 ≤ k ≤ 6` is FALSE on /repo and on the model, see the example.) -/
+theorem parse_render_hms_fraction (cls : Char → CClass) [AsciiOK cls] (yf : Bool) (year century : Int) (o : Opts)
+    (tznames : List Token) (tzi : TzInfos) (ho : PlainOpts o tzi) (dflt : DT) (hdv : dflt.Valid) (t : DT) (ht : t.Valid)
+    (comma : Bool) (k : Nat) (hk : k = 1 ∨ k = 2 ∨ k = 4 ∨ k = 6) (off : Off) (hoff : off.Dom) (hsp : off.Spaced) :
+    parse cls (Info.default false yf year century) o tznames tzi dflt (renderHmsFrac comma k t off) =
+      .ok { dt := (TimeFmt.frac comma k).expect t dflt, tz := if o.ignoretz then .naive else offDescr tznames off,
+            tokens := none } :=
+  parse_hmsFrac cls yf year century o tznames tzi ho dflt hdv t ht comma k hk off hoff hsp
+
+/-- non-vacuity: `2003-09-25 10h49m41,5027s +03:30` is 10:49:41.502700 at +03:30; and with THREE fraction digits the model (like
+    /repo) rejects the text — the excluded lengths are exactly the known finding -/
+example : parse asciiCls (Info.default false false 2024 2000) {} [] .absent ⟨2001, 1, 1, 0, 0, 0, 0⟩
+    (renderHmsFrac true 4 ⟨2003, 9, 25, 10, 49, 41, 502789⟩ (.hhcmm true false 3 30)) =
+      .ok ⟨⟨2003, 9, 25, 10, 49, 41, 502700⟩, .fixed none 12600, none⟩ := by decide +kernel
+example : parse asciiCls (Info.default false false 2024 2000) {} [] .absent ⟨2001, 1, 1, 0, 0, 0, 0⟩
+    (renderHmsFrac false 3 ⟨2003, 9, 25, 10, 49, 41, 502789⟩ .naive) = .error .ParserError := by decide +kernel
 
 /-- **family 4**: ctime `Www Mmm dd HH:MM:SS YYYY`, RFC 2822 `Www, DD Mmm YYYY HH:MM:SS<offset>`, `Month D, YYYY`,
     `D Mon YYYY` (year ≥ 100: D-C02 is exactly the excluded class) and `DD-Mon-YYYY` (every year); the weekday word
@@ -616,6 +639,38 @@ def TemplateThm (id : String) : Prop :=
     (∀ (cls : Char → CClass) [AsciiOK cls] (yf : Bool) (year century : Int) (o : Opts) (tznames : List Token) (tzi : TzInfos) (ho : PlainOpts o tzi) (t dflt : DT) (ht : t.Valid) (hdv : dflt.Valid) (off : Off) (hoff : off.Dom),
       parse cls (Info.default false yf year century) o tznames tzi dflt (renderCFrac .compactT false 6 t off) =
         .ok { dt := TimeFmt.expect (.frac false 6) t dflt, tz := if o.ignoretz then .naive else offDescr tznames off, tokens := none })
+  else if id = "hms_letters_dot_f1" then
+    (∀ (cls : Char → CClass) [AsciiOK cls] (yf : Bool) (year century : Int) (o : Opts) (tznames : List Token) (tzi : TzInfos) (ho : PlainOpts o tzi) (t dflt : DT) (ht : t.Valid) (hdv : dflt.Valid) (off : Off) (hoff : off.Dom) (hsp : off.Spaced),
+      parse cls (Info.default false yf year century) o tznames tzi dflt (renderHmsFrac false 1 t off) =
+        .ok { dt := TimeFmt.expect (.frac false 1) t dflt, tz := if o.ignoretz then .naive else offDescr tznames off, tokens := none })
+  else if id = "hms_letters_dot_f2" then
+    (∀ (cls : Char → CClass) [AsciiOK cls] (yf : Bool) (year century : Int) (o : Opts) (tznames : List Token) (tzi : TzInfos) (ho : PlainOpts o tzi) (t dflt : DT) (ht : t.Valid) (hdv : dflt.Valid) (off : Off) (hoff : off.Dom) (hsp : off.Spaced),
+      parse cls (Info.default false yf year century) o tznames tzi dflt (renderHmsFrac false 2 t off) =
+        .ok { dt := TimeFmt.expect (.frac false 2) t dflt, tz := if o.ignoretz then .naive else offDescr tznames off, tokens := none })
+  else if id = "hms_letters_dot_f4" then
+    (∀ (cls : Char → CClass) [AsciiOK cls] (yf : Bool) (year century : Int) (o : Opts) (tznames : List Token) (tzi : TzInfos) (ho : PlainOpts o tzi) (t dflt : DT) (ht : t.Valid) (hdv : dflt.Valid) (off : Off) (hoff : off.Dom) (hsp : off.Spaced),
+      parse cls (Info.default false yf year century) o tznames tzi dflt (renderHmsFrac false 4 t off) =
+        .ok { dt := TimeFmt.expect (.frac false 4) t dflt, tz := if o.ignoretz then .naive else offDescr tznames off, tokens := none })
+  else if id = "hms_letters_dot_f6" then
+    (∀ (cls : Char → CClass) [AsciiOK cls] (yf : Bool) (year century : Int) (o : Opts) (tznames : List Token) (tzi : TzInfos) (ho : PlainOpts o tzi) (t dflt : DT) (ht : t.Valid) (hdv : dflt.Valid) (off : Off) (hoff : off.Dom) (hsp : off.Spaced),
+      parse cls (Info.default false yf year century) o tznames tzi dflt (renderHmsFrac false 6 t off) =
+        .ok { dt := TimeFmt.expect (.frac false 6) t dflt, tz := if o.ignoretz then .naive else offDescr tznames off, tokens := none })
+  else if id = "hms_letters_comma_f1" then
+    (∀ (cls : Char → CClass) [AsciiOK cls] (yf : Bool) (year century : Int) (o : Opts) (tznames : List Token) (tzi : TzInfos) (ho : PlainOpts o tzi) (t dflt : DT) (ht : t.Valid) (hdv : dflt.Valid) (off : Off) (hoff : off.Dom) (hsp : off.Spaced),
+      parse cls (Info.default false yf year century) o tznames tzi dflt (renderHmsFrac true 1 t off) =
+        .ok { dt := TimeFmt.expect (.frac true 1) t dflt, tz := if o.ignoretz then .naive else offDescr tznames off, tokens := none })
+  else if id = "hms_letters_comma_f2" then
+    (∀ (cls : Char → CClass) [AsciiOK cls] (yf : Bool) (year century : Int) (o : Opts) (tznames : List Token) (tzi : TzInfos) (ho : PlainOpts o tzi) (t dflt : DT) (ht : t.Valid) (hdv : dflt.Valid) (off : Off) (hoff : off.Dom) (hsp : off.Spaced),
+      parse cls (Info.default false yf year century) o tznames tzi dflt (renderHmsFrac true 2 t off) =
+        .ok { dt := TimeFmt.expect (.frac true 2) t dflt, tz := if o.ignoretz then .naive else offDescr tznames off, tokens := none })
+  else if id = "hms_letters_comma_f4" then
+    (∀ (cls : Char → CClass) [AsciiOK cls] (yf : Bool) (year century : Int) (o : Opts) (tznames : List Token) (tzi : TzInfos) (ho : PlainOpts o tzi) (t dflt : DT) (ht : t.Valid) (hdv : dflt.Valid) (off : Off) (hoff : off.Dom) (hsp : off.Spaced),
+      parse cls (Info.default false yf year century) o tznames tzi dflt (renderHmsFrac true 4 t off) =
+        .ok { dt := TimeFmt.expect (.frac true 4) t dflt, tz := if o.ignoretz then .naive else offDescr tznames off, tokens := none })
+  else if id = "hms_letters_comma_f6" then
+    (∀ (cls : Char → CClass) [AsciiOK cls] (yf : Bool) (year century : Int) (o : Opts) (tznames : List Token) (tzi : TzInfos) (ho : PlainOpts o tzi) (t dflt : DT) (ht : t.Valid) (hdv : dflt.Valid) (off : Off) (hoff : off.Dom) (hsp : off.Spaced),
+      parse cls (Info.default false yf year century) o tznames tzi dflt (renderHmsFrac true 6 t off) =
+        .ok { dt := TimeFmt.expect (.frac true 6) t dflt, tz := if o.ignoretz then .naive else offDescr tznames off, tokens := none })
   else if id = "rfc2822" then
     (∀ (cls : Char → CClass) [AsciiOK cls] (yf : Bool) (year century : Int) (o : Opts) (tznames : List Token) (tzi : TzInfos) (ho : PlainOpts o tzi) (t dflt : DT) (ht : t.Valid) (hdv : dflt.Valid) (hy : 100 ≤ t.y) (off : Off) (hoff : off.Dom),
       parse cls (Info.default false yf year century) o tznames tzi dflt (renderMon (.rfc2822 t.weekday.toNat) t off) =
@@ -666,12 +721,13 @@ def TemplateThm (id : String) : Prop :=
         .ok { dt := { t with hh := dflt.hh, mm := dflt.mm, ss := dflt.ss, us := dflt.us }, tz := .naive, tokens := none })
   else False
 
+set_option maxHeartbeats 4000000 in
 /-- **every id in `PT.provedTemplates` (the list the evidence prints through the `parser.proved` op) has its theorem**:
     an id listed without a proof makes this fail to build, so the evidence cannot claim more than is proved. -/
 theorem proved_templates_have_theorems : ∀ p ∈ provedTemplates, TemplateThm p.1 := by
   intro p hp
   simp only [provedTemplates, List.mem_cons, List.mem_nil_iff, or_false] at hp
-  rcases hp with rfl | rfl | rfl | rfl | rfl | rfl | rfl | rfl | rfl | rfl | rfl | rfl | rfl | rfl | rfl | rfl | rfl | rfl | rfl | rfl | rfl | rfl | rfl | rfl | rfl | rfl | rfl | rfl | rfl | rfl | rfl | rfl | rfl | rfl | rfl | rfl | rfl | rfl | rfl | rfl | rfl | rfl | rfl | rfl | rfl | rfl | rfl | rfl | rfl | rfl | rfl | rfl | rfl | rfl | rfl | rfl | rfl | rfl | rfl | rfl | rfl | rfl | rfl | rfl | rfl | rfl | rfl | rfl | rfl | rfl | rfl | rfl | rfl | rfl | rfl | rfl | rfl | rfl | rfl | rfl | rfl | rfl
+  rcases hp with rfl | rfl | rfl | rfl | rfl | rfl | rfl | rfl | rfl | rfl | rfl | rfl | rfl | rfl | rfl | rfl | rfl | rfl | rfl | rfl | rfl | rfl | rfl | rfl | rfl | rfl | rfl | rfl | rfl | rfl | rfl | rfl | rfl | rfl | rfl | rfl | rfl | rfl | rfl | rfl | rfl | rfl | rfl | rfl | rfl | rfl | rfl | rfl | rfl | rfl | rfl | rfl | rfl | rfl | rfl | rfl | rfl | rfl | rfl | rfl | rfl | rfl | rfl | rfl | rfl | rfl | rfl | rfl | rfl | rfl | rfl | rfl | rfl | rfl | rfl | rfl | rfl | rfl | rfl | rfl | rfl | rfl | rfl | rfl | rfl | rfl | rfl | rfl | rfl | rfl
   · show TemplateThm "us_slash"
     simp only [TemplateThm]
     exact fun cls _ yf year century o tznames tzi ho hdf hyf t dflt ht hdv off hoff => tpl_us_slash cls yf year century o tznames tzi ho hdf hyf t dflt ht hdv off hoff
@@ -942,6 +998,38 @@ theorem proved_templates_have_theorems : ∀ p ∈ provedTemplates, TemplateThm 
     simp only [TemplateThm]
     exact fun cls _ yf year century o tznames tzi ho t dflt ht hdv off hoff =>
       parse_cfrac cls yf year century o tznames tzi ho dflt hdv t ht .compactT false 6 (by decide) (by decide) off hoff
+  · show TemplateThm "hms_letters_dot_f1"
+    simp only [TemplateThm]
+    exact fun cls _ yf year century o tznames tzi ho t dflt ht hdv off hoff hsp =>
+      parse_hmsFrac cls yf year century o tznames tzi ho dflt hdv t ht false 1 (by decide) off hoff hsp
+  · show TemplateThm "hms_letters_dot_f2"
+    simp only [TemplateThm]
+    exact fun cls _ yf year century o tznames tzi ho t dflt ht hdv off hoff hsp =>
+      parse_hmsFrac cls yf year century o tznames tzi ho dflt hdv t ht false 2 (by decide) off hoff hsp
+  · show TemplateThm "hms_letters_dot_f4"
+    simp only [TemplateThm]
+    exact fun cls _ yf year century o tznames tzi ho t dflt ht hdv off hoff hsp =>
+      parse_hmsFrac cls yf year century o tznames tzi ho dflt hdv t ht false 4 (by decide) off hoff hsp
+  · show TemplateThm "hms_letters_dot_f6"
+    simp only [TemplateThm]
+    exact fun cls _ yf year century o tznames tzi ho t dflt ht hdv off hoff hsp =>
+      parse_hmsFrac cls yf year century o tznames tzi ho dflt hdv t ht false 6 (by decide) off hoff hsp
+  · show TemplateThm "hms_letters_comma_f1"
+    simp only [TemplateThm]
+    exact fun cls _ yf year century o tznames tzi ho t dflt ht hdv off hoff hsp =>
+      parse_hmsFrac cls yf year century o tznames tzi ho dflt hdv t ht true 1 (by decide) off hoff hsp
+  · show TemplateThm "hms_letters_comma_f2"
+    simp only [TemplateThm]
+    exact fun cls _ yf year century o tznames tzi ho t dflt ht hdv off hoff hsp =>
+      parse_hmsFrac cls yf year century o tznames tzi ho dflt hdv t ht true 2 (by decide) off hoff hsp
+  · show TemplateThm "hms_letters_comma_f4"
+    simp only [TemplateThm]
+    exact fun cls _ yf year century o tznames tzi ho t dflt ht hdv off hoff hsp =>
+      parse_hmsFrac cls yf year century o tznames tzi ho dflt hdv t ht true 4 (by decide) off hoff hsp
+  · show TemplateThm "hms_letters_comma_f6"
+    simp only [TemplateThm]
+    exact fun cls _ yf year century o tznames tzi ho t dflt ht hdv off hoff hsp =>
+      parse_hmsFrac cls yf year century o tznames tzi ho dflt hdv t ht true 6 (by decide) off hoff hsp
   · show TemplateThm "rfc2822"
     simp only [TemplateThm]
     exact fun cls _ yf year century o tznames tzi ho t dflt ht hdv hy off hoff =>
